@@ -75,7 +75,7 @@ for tname, ctype in (('u16', 'unsigned short'), ('i64', 'long long')):
         cname='vec_load_' + tname, file=T, macro_body=True, locate=lit('static void load(vec &v,archive &a)'),
         sig='void vec_load_%s(struct podvec *v, struct archive *a)' % tname, throw_ret='',
         rewrites=[(r'\bType\b', ctype, 2), (r'a\.next_chunk_size\(\)', 'archive_next_chunk_size(a)', 1), (r'a\.read_chunk\(', 'archive_read_chunk(a, ', 1),
-                  (r'v\.clear\(\);', '', 1), (r'v\.resize\(n\);', 'podvec_resize(v, n, sizeof(%s));' % ctype, 1),
+                  (r'v\.clear\(\);', '', 1), (r'v\.resize\(([^;]*)\);', r'podvec_resize(v, \1, sizeof(%s));' % ctype, 1),
                   (r'!v\.empty\(\)', '(v->n != 0)', 1), (r'&v\.front\(\)', 'v->p', 1)],
         throwing_callees=['archive_next_chunk_size', 'archive_read_chunk'],
         contract=('__CPROVER_requires(%s && __CPROVER_rw_ok(v, sizeof(*v)))\n' % ARCH_OK.replace('self', 'a')) +
